@@ -573,10 +573,14 @@ func runMsgCase(cfg *RunCfg, st *Stats) *history {
 		}
 	}
 	h.human = fmt.Sprintf("msg dirty=%s later=%s", clip(strings.Join(h.dirty, " ")), clip(strings.Join(h.later, " ")))
+	// Message.String() walks every field once more (implementation-only comparison)
+	if !panicked(h.obs) && rec.String() != fresh.String() {
+		h.obs = append(h.obs, "STRING-DIFFERS")
+	}
 	switch {
 	case panicked(h.obs):
 		st.Count("msg-later:panicked")
-	case strings.HasSuffix(h.obs[len(h.obs)-2], "err"):
+	case len(h.obs) >= 2 && strings.HasSuffix(h.obs[len(h.obs)-2], "err"):
 		st.Count("msg-pack:error")
 	default:
 		st.Count("msg-pack:ok")
